@@ -45,6 +45,10 @@ func (li Balances) View(limit uint64) (*RegistryBalancesView, error) {
 		tmp[i] = Uint64View(bal)
 	}
 	typ := BasicListType(common.GweiType, limit)
+	if len(tmp) == 0 {
+		// FromElements leaves the contents node of an empty list nil, the view then panics when hashed
+		return &RegistryBalancesView{typ.New()}, nil
+	}
 	return AsRegistryBalances(typ.FromElements(tmp...))
 }
 
